@@ -120,7 +120,8 @@ def scenario(sim):
         rf.close()
     finally:
         s.close()
-    return {"sample": case, "nontrivial": True, "counts": [describe(case, [r for r in case["reqs"] if len(r) == 4][0])]}
+    return {"sample": case, "nontrivial": True, "case_key": repr((case["size"], case["short_reads"], case["reqs"])),
+            "counts": [describe(case, [r for r in case["reqs"] if len(r) == 4][0])]}
 
 
 def one_request(sim, s, rf, case, req, data):
